@@ -42,6 +42,9 @@ class WriterModel(Model):
         if key in ('this.mOutputString', 'this.mOutputStream'):
             return Sym('OUT')
         if isinstance(key, str) and key.startswith('in.ts.'):
+            if isinstance(self.arg, dict) and key[6:] in self.arg:
+                lo, hi = self.arg[key[6:]]
+                return Iv(lo, hi, 'SEC' if key[6:] == 'Seconds' else 'NS')
             return Sym(('FIELD', key[6:]))
         return TOP
 
@@ -84,6 +87,29 @@ class WriterModel(Model):
         return v
 
     def arith(self, it, fr, n, op, a, b):
+        if isinstance(a, Iv) and isinstance(b, Iv):
+            if op == '|':
+                if a.lo == a.hi == 0:
+                    return b
+                if b.lo == b.hi == 0:
+                    return a
+                for x, y in ((a, b), (b, a)):
+                    if x.tag.startswith('SHL'):
+                        k = int(x.tag[3:x.tag.index('(')])
+                        if 0 <= y.lo and y.hi < (1 << k):
+                            return Iv(x.lo + y.lo, x.hi + y.hi, 'OR(%s,%s)' % (x.tag, y.tag))
+            return TOP
+        if isinstance(a, Iv) and isinstance(b, int) and op == '<<' and a.lo >= 0 and (a.hi << b) < (1 << 64):
+            return Iv(a.lo << b, a.hi << b, 'SHL%d(%s)' % (b, a.tag))
+        if isinstance(a, Iv) and isinstance(b, int) and op == '&' and a.lo >= 0 and b > 0:
+            low = b & -b
+            if ((b | (low - 1)) + 1) & (b | (low - 1)) == 0 and (b | (low - 1)) >= a.hi:
+                # b is a "high mask" covering every bit >= log2(low) that the interval can have
+                if a.hi < low:
+                    return 0
+                if a.lo >= low:
+                    return Iv(low, a.hi & b if a.hi & b else low, 'NZ')
+                raise AnalysisBroken('writer tables: (%r & 0x%x) undecided - partition incomplete at %s' % (a, b, fr.f.loc(n) if fr else ''))
         if isinstance(b, Iv) and isinstance(a, int):
             a, b = b, a
             swapped = True
@@ -272,10 +298,17 @@ def writer_tables(prog):
                 per[c] = [emitted(p) for p in run_writer(prog, f, kind, Iv(c[0], c[1]))]
             tabs[(name, pt)] = (f, fam, per)
         for name, pt, fam in [('WriteValue', 'std::nullptr_t', 'nil'), ('WriteValue', 'float', 'float'), ('WriteValue', 'double', 'double'),
-                              ('WriteBinary', 'char', 'binbyte'), ('WriteValue', 'const BitSerializer::Detail::CBinTimestamp &', 'timestamp')]:
+                              ('WriteBinary', 'char', 'binbyte')]:
             f = find_writer_method(prog, kind, name, pt)
             arg = Iv(-128, 127) if fam == 'binbyte' else Sym('FLT')
             tabs[(name, pt)] = (f, fam, {(0, 0): [emitted(p) for p in run_writer(prog, f, kind, arg)]})
+        f = find_writer_method(prog, kind, 'WriteValue', 'const BitSerializer::Detail::CBinTimestamp &')
+        per = {}
+        sec_cells = cells(-(1 << 63), (1 << 63) - 1, consts | {0, 1 << 32, 1 << 34})
+        for sc in sec_cells:
+            for nc in ((0, 0), (1, 999999999)):
+                per[(sc, nc)] = [emitted(p) for p in run_writer(prog, f, kind, {'Seconds': sc, 'Nanoseconds': nc})]
+        tabs[('WriteValue', 'const BitSerializer::Detail::CBinTimestamp &')] = (f, 'timestamp', per)
         f = find_writer_method(prog, kind, 'WriteValue', 'bool')
         tabs[('WriteValue', 'bool')] = (f, 'bool', {(v, v): [emitted(p) for p in run_writer(prog, f, kind, v)] for v in (0, 1)})
         out[kind] = tabs
